@@ -128,14 +128,45 @@ type listenStream struct {
 	resps  []*signaling.ListenResponse
 	done   chan struct{}
 	err    error
+	hold   chan struct{} // when non-nil, Send blocks (after logging) until it is closed: a slow client
+	inSend chan struct{} // closed when the first held Send has been entered
+}
+
+// holdSends makes the next Send calls block until release is called.
+func (s *listenStream) holdSends() {
+	s.mtx.Lock()
+	s.hold = make(chan struct{})
+	s.inSend = make(chan struct{})
+	s.mtx.Unlock()
+}
+
+func (s *listenStream) release() {
+	s.mtx.Lock()
+	if s.hold != nil {
+		close(s.hold)
+		s.hold = nil
+	}
+	s.mtx.Unlock()
 }
 
 func (s *listenStream) Context() context.Context { return s.ctx }
 func (s *listenStream) Send(m *signaling.ListenResponse) error {
 	s.mtx.Lock()
 	s.resps = append(s.resps, m)
+	hold, inSend := s.hold, s.inSend
 	s.mtx.Unlock()
 	s.w.logLtx(s.id, m)
+	if hold != nil {
+		select {
+		case <-inSend:
+		default:
+			close(inSend)
+		}
+		select {
+		case <-hold:
+		case <-s.ctx.Done():
+		}
+	}
 	return nil
 }
 func (s *listenStream) SendAndClose(m *signaling.ListenResponse) error { return s.Send(m) }
@@ -425,6 +456,44 @@ func (e *engine) scenario(kind string, n int) {
 		w.newSession(1, 2)
 		w.newSession(3, 2)
 		act("open 1->2; open 3->2")
+	case "listen-swap":
+		// C24 sentinel: while the listener is inside Send(SetPeer X), X's session closes and Z's opens
+		l := w.newListen(2)
+		w.quiesce(300 * time.Microsecond)
+		l.holdSends()
+		x := w.newSession(1, 2)
+		select {
+		case <-l.inSend:
+		case <-time.After(2 * time.Second):
+		}
+		x.cancel()
+		w.quiesce(300 * time.Microsecond)
+		w.newSession(3, 2)
+		w.quiesce(300 * time.Microsecond)
+		l.release()
+		act("listen 2 (slow client); open 1->2; while Send(SetPeer 1) blocks: close 1->2, open 3->2; release")
+	case "listen-stale-cleanup":
+		// C25 sentinel: a replaced Listen call that finishes late must not disturb a newer tracker
+		l1 := w.newListen(2)
+		w.quiesce(300 * time.Microsecond)
+		l1.holdSends()
+		sx := w.newSession(1, 2)
+		select {
+		case <-l1.inSend:
+		case <-time.After(2 * time.Second):
+		}
+		l2 := w.newListen(2) // replaces l1
+		w.quiesce(300 * time.Microsecond)
+		l2.cancel()
+		w.quiesce(300 * time.Microsecond)
+		sx.cancel() // last want gone: tracker released
+		w.quiesce(300 * time.Microsecond)
+		w.newListen(2) // l3 on a fresh tracker
+		w.quiesce(300 * time.Microsecond)
+		l1.release() // l1 now observes it was replaced and runs its cleanup
+		w.quiesce(500 * time.Microsecond)
+		w.newSession(3, 2) // must be announced to l3
+		act("L1 listens (slow client) ; session 1->2; L2 replaces L1; L2 cancelled; session ends; L3 listens; L1 finishes late; session 3->2")
 	default: // random
 		for i := 0; i < n; i++ {
 			live := []*sessStream{}
@@ -451,6 +520,25 @@ func (e *engine) scenario(kind string, n int) {
 				p := 1 + e.rng.Intn(3)
 				w.newListen(p)
 				act(fmt.Sprintf("listen %d", p))
+			case r < 28:
+				var ll []*listenStream
+				for _, l := range w.lcalls {
+					select {
+					case <-l.done:
+					default:
+						ll = append(ll, l)
+					}
+				}
+				if len(ll) > 0 {
+					l := ll[e.rng.Intn(len(ll))]
+					if e.rng.Intn(2) == 0 {
+						l.holdSends()
+						act(fmt.Sprintf("slow client on listen call %d", l.id))
+					} else {
+						l.release()
+						act(fmt.Sprintf("release listen call %d", l.id))
+					}
+				}
 			case r < 30:
 				var ll []*listenStream
 				for _, l := range w.lcalls {
@@ -474,6 +562,9 @@ func (e *engine) scenario(kind string, n int) {
 			}
 			w.jitter()
 		}
+	}
+	for _, l := range w.lcalls {
+		l.release()
 	}
 	w.quiesce(2 * time.Millisecond)
 	e.validate(w, kind, actions, false)
@@ -670,6 +761,39 @@ func (e *engine) validate(w *world, kind string, actions []string, drained bool)
 			}
 		}
 	}
+	// C25: a Listen call may only be told it was replaced when a newer Listen call for the same
+	// peer registered after it (read off the real server's own event order, not the model)
+	if mon == "" {
+		type reg struct{ call, pid, at int }
+		var regs []reg
+		for i, tok := range strings.Split(trace, ";") {
+			f := strings.Split(tok, ",")
+			switch f[0] {
+			case "lreg":
+				c, _ := strconv.Atoi(strings.TrimPrefix(f[1], "c="))
+				p, _ := strconv.Atoi(strings.TrimPrefix(f[2], "pid="))
+				regs = append(regs, reg{c, p, i})
+			case "lusurped":
+				c, _ := strconv.Atoi(strings.TrimPrefix(f[1], "c="))
+				var mine *reg
+				for k := range regs {
+					if regs[k].call == c {
+						mine = &regs[k]
+					}
+				}
+				justified := false
+				for _, r := range regs {
+					if mine != nil && r.pid == mine.pid && r.call != c && r.at > mine.at {
+						justified = true
+					}
+				}
+				if mine != nil && !justified {
+					mon = fmt.Sprintf("listen call %d for peer %d was ended as replaced although no newer Listen call for that peer had registered", c, mine.pid)
+					key = "sigsrv.listen-replaced:" + kind
+				}
+			}
+		}
+	}
 	br := "trace." + kind + "." + phase
 	mshort := model
 	if strings.HasPrefix(model, "ok ") {
@@ -706,10 +830,12 @@ func keys(m map[int]bool) []int {
 
 func (e *engine) run() {
 	e.rep.Rule = "seeded random schedules of client actions (attach/usurp/send/stale/future/forged/tampered/ack/clear/re-init/close/cancel/listen) on the real relay server through fake streams with jitter; every server critical section + every response is replayed against the Lean LTS; sentinels: detach+re-attach and usurp while the partner stays (F10), late attach with a single sender (F9), listen across open/close/re-open (F8); distinct = distinct schedule"
-	e.rep.Require("trace.random.quiescent", "trace.random.drained", "trace.reattach-race.quiescent", "trace.late-attach.quiescent", "trace.listen-reopen.quiescent")
+	e.rep.Require("trace.random.quiescent", "trace.random.drained", "trace.reattach-race.quiescent", "trace.late-attach.quiescent", "trace.listen-reopen.quiescent", "trace.listen-swap.quiescent", "trace.listen-stale-cleanup.quiescent")
 	e.rep.Extra["events"] = 0
 	e.scenario("late-attach", 1)
 	e.scenario("listen-reopen", 2)
+	e.scenario("listen-swap", 1)
+	e.scenario("listen-stale-cleanup", 1)
 	for i := 0; i < 3*e.a.Scale; i++ {
 		e.scenario("reattach-race", 2+e.rng.Intn(3))
 	}
